@@ -125,6 +125,25 @@ def patRmdirRenamedIn (st : St) (op : Op) : Bool :=
       | _ => false
   | _ => false
 
+/-- F-C10-9: a file is created (open with create / create_new, `fs::write`) at a path where a
+    directory exists: the open succeeds and the name is a file and a directory at once -/
+def patCreateOverDir (st : St) (op : Op) : Bool :=
+  (touches st op).any fun t =>
+    match t with
+    | .create p => dirExists st.fs p
+    | _ => false
+
+/-- F-10: `sync_all` / `sync_data` through a name that is source or destination of a pending rename:
+    `sync_file` selects data ops by the literal path and misses those keyed by the other name -/
+def patFsyncAcrossRename (st : St) (op : Op) : Bool :=
+  let chk (s : Nat) : Bool := match getSlot st s with
+    | some h => pendingRenameTouching st.fs h.path
+    | none => false
+  match op with
+  | .syncAll s => chk s
+  | .syncData s => chk s
+  | _ => false
+
 def opSlot : Op → Option Nat
   | .writeAt s _ _ => some s | .readAt s _ _ => some s | .write s _ => some s | .read s _ => some s
   | .seek s _ _ => some s | .setLen s _ => some s | .syncAll s => some s | .syncData s => some s
@@ -178,13 +197,19 @@ def patternsAt (st : St) (sp : Spec) (op : Op) : List Taint :=
   ++ mk 5 (patRenameDir st op) []
   ++ mk 6 (patRenameAcrossRename st op) partners
   ++ mk 7 (patRmdirRenamedIn st op) rmdirExtra
+  ++ mk 9 (patCreateOverDir st op) []
+  ++ mk 10 (patFsyncAcrossRename st op) partners
   ++ mk 8 (patStaleHandle sp op st) (match opSlot op with
       | some sl => match sGetSlot sp sl with
         | some sh => sp.ents.filterMap fun kv => if kv.2 == .file sh.fid then some kv.1 else none
         | none => []
       | none => [])
 
-def related (p q : Path) : Bool := p.isPrefixOf q || q.isPrefixOf p
+/-- a taint on `t` is relevant for a divergence observed at `p` if `t = p`, if `t` is a proper
+    non-root ancestor of `p` (the entry moved with its directory), or if `t` is a direct child of
+    `p` (the listing of `p` is what differs) -/
+def related (t p : Path) : Bool :=
+  t == p || (t != [] && t.isPrefixOf p) || parent t == some p
 
 /-- taints follow successful renames -/
 def propagate (ts : List Taint) (op : Op) (ok : Bool) : List Taint :=
@@ -201,9 +226,12 @@ def monStep (cfg : Cfg) (ts : List Taint) (st : St) (sp : Spec) (op : Op) (ora :
 
 /-- the finding that explains a divergence observed at `paths`: the earliest taint on a related path -/
 def explain (ts : List Taint) (paths : List Path) : Option Nat :=
-  match ts.find? (fun t => paths.any fun p => related t.2 p) with
+  match ts.find? (fun t => paths.contains t.2) with
   | some t => some t.1
-  | none => none
+  | none =>
+    match ts.find? (fun t => paths.any fun p => related t.2 p) with
+    | some t => some t.1
+    | none => none
 
 def findingId (prop : String) (n : Nat) : String := s!"F-{prop}-{n}"
 
@@ -246,7 +274,9 @@ def macroAlphabet (a b d e : Nat) (full : Bool) : List (List Op) :=
       [.rename [d] [e]],
       mPWrite [b] 0 [88, 89],
       mCreate [a],
-      [.rename [d, a] [a]] ]
+      [.rename [d, a] [a]],
+      [.rename [a] [d]],
+      [.rename [d] [a]] ]
   else [])
 
 end TV.Fs
